@@ -245,6 +245,20 @@ PLANS = {
         level_note='Trusted: Lean kernel; hand-written model.',
         design_ref='DESIGN.md §6 C16',
     ),
+    'C19': dict(
+        module='RucteProps.C19',
+        theorems=['Ructe.C19.mime03_rows_correct', 'Ructe.C19.mime03_default', 'Ructe.C19.httpTypes_rows_correct', 'Ructe.C19.httpTypes_default',
+                  'Ructe.C19.lookups_lowercase', 'Ructe.C19.format_prefix', 'Ructe.C19.mime03_never_other', 'Ructe.C19.httpTypes_never_other',
+                  'Ructe.C19.mime_case_insensitive'],
+        needs_tables=True,
+        custom='exec_mime', custom_search='search_mime',
+        correspondence='mime_arg(suffix) under each MIME feature vs Ructe.mimeArg over the tables translated from the source on this run',
+        rule='both MIME features x every suffix of either table and of the specification x 4 case variants, plus unknown, empty, near-miss and non-ASCII suffixes: a finite space, enumerated completely',
+        assumptions=['the constant list of http_types::mime is committed (the crate is not in the offline registry)', 'String::to_lowercase is modelled exactly on ASCII'],
+        level_text='Kernel-checked (decide) theorems over the tables extracted from staticfiles.rs and from the cached mime crate on every run: every row names an existing constant of the registered type, defaults are the generic binary type behind a single mime:: prefix, lookup is case-insensitive and never yields another format; tie + oracle through the hook under both features.',
+        level_note='Trusted: Lean kernel; tools/translate.py (table extraction); the committed specification table `registered` and the committed http-types constant list.',
+        design_ref='DESIGN.md §6 C19',
+    ),
 }
 
 
@@ -544,6 +558,95 @@ def proj_script(keys):
     return f
 
 
+# ------------------------------------------------------------------------------ MIME oracle (C19)
+REGISTERED = {
+    'css': ['text/css'], 'js': ['text/javascript', 'application/javascript'], 'jsonp': ['text/javascript', 'application/javascript'],
+    'json': ['application/json'], 'png': ['image/png'], 'jpg': ['image/jpeg'], 'jpeg': ['image/jpeg'], 'gif': ['image/gif'],
+    'bmp': ['image/bmp'], 'svg': ['image/svg+xml'], 'woff': ['font/woff'], 'woff2': ['font/woff2'],
+    'ico': ['image/x-icon', 'image/vnd.microsoft.icon'], 'html': ['text/html'], 'htm': ['text/html'], 'txt': ['text/plain'],
+    'wasm': ['application/wasm'], 'xml': ['application/xml', 'text/xml'],
+}
+HTTP_TYPES_CONSTANTS = {
+    'ANY': '*/*', 'BYTE_STREAM': 'application/octet-stream', 'CSS': 'text/css', 'FORM': 'application/x-www-form-urlencoded',
+    'HTML': 'text/html', 'ICO': 'image/x-icon', 'JAVASCRIPT': 'text/javascript', 'JPEG': 'image/jpeg', 'JSON': 'application/json',
+    'MULTIPART_FORM': 'multipart/form-data', 'PLAIN': 'text/plain', 'PNG': 'image/png', 'SSE': 'text/event-stream',
+    'SVG': 'image/svg+xml', 'WASM': 'application/wasm', 'XML': 'application/xml',
+}
+# suffixes each feature must know (the ones the property names, where the crate has a constant)
+MUST_KNOW = {'mime03': ['css', 'js', 'json', 'png', 'jpg', 'jpeg', 'svg', 'woff', 'woff2'],
+             'http-types': ['css', 'js', 'json', 'png', 'jpg', 'jpeg', 'svg']}
+
+
+def mime03_constants():
+    import glob
+    for p in sorted(glob.glob(os.path.expanduser('~/.cargo/registry/src/*/mime-0.3.*/src/lib.rs'))):
+        t = open(p).read()
+        m = re.search(r'\nmimes!\s*\{(.*?)\n\}', t, re.S)
+        if m:
+            return dict(re.findall(r'^\s*([A-Z][A-Z0-9_]*)\s*,\s*"([^"]*)"', m.group(1), re.M))
+    return {}
+
+
+def mime_oracle(res, feat):
+    consts = mime03_constants() if feat == 'mime03' else HTTP_TYPES_CONSTANTS
+    fails = []
+    for i, (req, ans) in enumerate(zip(res['req'], res['impl'])):
+        f = req.split(' ')
+        if f[0] != 'mimearg':
+            continue
+        suffix = unhex(f[2]).decode('utf-8', 'replace')
+        out = unhex(ans).decode('utf-8', 'replace')
+
+        def fail(kind, detail):
+            fails.append(dict(tags=['C19'], kind=kind, case=i, feature=feat, suffix=suffix, printed=out, detail=detail))
+        m = re.fullmatch(r'\s*mime: &mime::(.*),\n', out)
+        if not m:
+            fail('mime-line-shape', f'feature {feat}, suffix {suffix!r}: unexpected mime line {out!r}')
+            continue
+        c = m.group(1)
+        if c not in consts:
+            fail('constant-missing', f'feature {feat}, suffix {suffix!r}: the generated code names `mime::{c}`, which does not exist in the crate')
+            continue
+        t = consts[c]
+        low = suffix.lower()
+        if low in REGISTERED and t in REGISTERED[low]:
+            continue
+        if t == 'application/octet-stream' and low not in MUST_KNOW[feat]:
+            continue
+        want = REGISTERED.get(low, ['application/octet-stream'])
+        fail('wrong-type', f'feature {feat}, suffix {suffix!r}: mime::{c} is {t}, expected {" or ".join(want)}' +
+             ('' if low in REGISTERED else ' (unknown suffix: generic binary type)'))
+    return fails
+
+
+def exec_mime(prop, plan, ctx):
+    disagreements, oracle, samples = [], [], []
+    cov = dict(evaluations=0, distinct_nontrivial=0, distribution={}, exhaustive=True)
+    for feat in ('mime03', 'http-types'):
+        binary, err = ctx['build_harness']([feat])
+        if binary is None:
+            return dict(error='harness build with feature ' + feat + ' failed: ' + err[-1500:])
+        r = dict(suite='mime', n=1, projection='identity', tags=['C19'])
+        res = ctx['run_suite'](binary, ctx['driver'], r, ctx['tier'], ctx['seed'], f"{ctx['work']}/mime-{feat}")
+        if 'error' in res:
+            return dict(error=res['error'])
+        d = compare(res, 'identity')
+        for x in d:
+            x['suite'] = 'mime:' + feat
+        disagreements += d
+        oracle += mime_oracle(res, feat)
+        cov['evaluations'] += len(res['req'])
+        cov['distinct_nontrivial'] += len(set(res['req']))
+        cov['distribution'][feat] = res['stats']
+        samples += sample_reqs(res, 4)
+    return dict(disagreements=disagreements, oracle=oracle, coverage=cov, samples=samples)
+
+
+def search_mime(prop, plan, ctx, disagreements, pr):
+    # the space is finite and was enumerated completely by exec_mime; nothing more to search
+    return dict(oracle=[], coverage=dict(evaluations=0))
+
+
 # ------------------------------------------------------------------------------ execution
 def compare(res, projection):
     p = PROJ.get(projection) or (proj_script(projection.split('+')[1:]) if projection.startswith('script+') else None)
@@ -567,7 +670,7 @@ def sample_reqs(res, k=6):
 
 def execute(prop, plan, ctx):
     if 'custom' in plan:
-        return plan['custom'](prop, plan, ctx)
+        return globals()[plan['custom']](prop, plan, ctx)
     disagreements, oracle, samples = [], [], []
     cov = dict(evaluations=0, distinct_nontrivial=0, distribution={})
     for k, r in enumerate(plan['runs']):
@@ -598,7 +701,7 @@ def execute(prop, plan, ctx):
 def search(prop, plan, ctx, disagreements, pr):
     """Extra budget looking for an input on which the property itself fails on the implementation."""
     if 'custom_search' in plan:
-        return plan['custom_search'](prop, plan, ctx, disagreements, pr)
+        return globals()[plan['custom_search']](prop, plan, ctx, disagreements, pr)
     oracle = []
     evals = 0
     for extra_seed in range(1, 4):
